@@ -349,7 +349,16 @@ Fixpoint bcast {A : Type} (s t : list Z) (d : list A) : list A :=
   end.
 Definition broadcast_to {A : Type} (s t : list Z) (d : list A) : list A := bcast (pad s t) t d.
 
+(* vocabulary: s broadcasts to t (after padding with leading 1s every dimension is equal or 1) *)
+Definition brel (m n : Z) : Prop := m = n \/ m = 1.
+Definition broadcasts_to (s t : list Z) : Prop := Forall2 brel (pad s t) t.
+Definition all_nonneg (s : list Z) : Prop := Forall (fun n => 0 <= n) s.
+
 Record field := mkField { f_shape : list Z; f_data : list coord }.
+
+(* an array: as many elements as the product of its dimensions *)
+Definition well_formed (f : field) : Prop :=
+  all_nonneg (f_shape f) /\ length (f_data f) = Z.to_nat (prod (f_shape f)).
 
 Inductive cov_result :=
   | Coverage (index_shape : list Z) (w : Z) (indices coverage : list Z)
